@@ -32,10 +32,11 @@ type Sched struct {
 	Shares                 []*big.Int
 	Burnout                *big.Int
 
-	times  map[int64]time.Time
-	closes []time.Time
-	dist   []*big.Int // per year: credited so far
-	till   []*big.Int // per year: credited till the end of the last completed cycle
+	times    map[int64]time.Time
+	closes   []time.Time
+	imported bool       // the reward years (closes, distributed amounts) were carried by the genesis
+	dist     []*big.Int // per year: credited so far
+	till     []*big.Int // per year: credited till the end of the last completed cycle
 
 	// state of the current cycle
 	cycleNo   int64 // 1-based; 0 = nothing computed yet
@@ -75,13 +76,27 @@ func NewSched(cycle, est, window int64, shares []*big.Int, burnout *big.Int) *Sc
 // Block registers the time of block h (heights must arrive in order, starting at 1).
 func (s *Sched) Block(h int64, t time.Time) {
 	s.times[h] = t.UTC()
-	if h == 1 {
+	if h == 1 && !s.imported {
 		start := t.UTC()
 		for range s.Shares {
 			c := start.AddDate(1, 0, 0).UTC()
 			s.closes = append(s.closes, c)
 			start = c
 		}
+	}
+}
+
+// Import starts the schedule from reward years carried by the genesis (an exported chain state):
+// the years keep the closes of the exported chain instead of being laid out from the time of
+// block 1, and each year starts with what the genesis states as distributed so far and as
+// distributed till the end of the last completed cycle.
+func (s *Sched) Import(closes []time.Time, dist, till []*big.Int) {
+	s.imported = true
+	s.closes = nil
+	for i := range s.Shares {
+		s.closes = append(s.closes, closes[i].UTC())
+		s.dist[i] = new(big.Int).Set(dist[i])
+		s.till[i] = new(big.Int).Set(till[i])
 	}
 }
 
